@@ -19,6 +19,8 @@ What is proved (loop invariant, i.e. at every loop head, hence at every later ex
   * C15: nothing is pending in the translator at a loop head: every finished input has been flushed (flush returned Ok)
     before the next input is opened, so an error exit (which runs no destructors) cannot lose finished output, and a
     normal return leaves nothing unflushed;
+  * C13 / C04: `usage_name` (verbatim) obtains the program name without a call that can panic: `std::env::args` carries the
+    contract `requires false` (it panics on a non-Unicode argument), `args_os` + `into_string` are total;
   * C13: `Cli::parse_args` (verbatim) returns Err exactly for the command lines the token-stream model `parse_model` calls
     invalid, and a faithful Cli otherwise (any length); the translator is never created when stdout is a terminal and the
     target is MessagePack.
@@ -38,6 +40,8 @@ use vstd::std_specs::iter::IteratorSpec;
 use std::fmt;
 use std::fs::File;
 use std::io::{self, BufWriter, IsTerminal, Write};
+use std::borrow::Cow;
+use std::env;
 use std::path::{Path, PathBuf};
 use std::process;
 '''
@@ -248,6 +252,18 @@ pub assume_specification<P: AsRef<std::path::Path>> [std::path::Path::ends_with:
     ensures r == path_ends_with(a, as_path_of(&child));
 pub assume_specification<P: AsRef<std::path::Path>> [std::path::Path::starts_with::<P>] (a: &std::path::Path, base: P) -> (r: bool)
     ensures r == path_starts_with(a, as_path_of(&base));
+// ---- std::env as far as usage_name touches it ----
+#[verifier::external_type_specification] #[verifier::external_body] pub struct ExArgsOs(std::env::ArgsOs);
+#[verifier::external_type_specification] #[verifier::external_body] pub struct ExArgs(std::env::Args);
+pub assume_specification [std::env::args_os] () -> std::env::ArgsOs;
+// C13 / C04: `std::env::args()` PANICS when an argument is not valid Unicode (documented); the CLI must not call it
+pub assume_specification [std::env::args] () -> std::env::Args
+    requires false;
+#[verifier::allow(undeclared_external_trait)]
+pub assume_specification [<std::env::ArgsOs as Iterator>::next] (a: &mut std::env::ArgsOs) -> std::option::Option<std::ffi::OsString>;
+#[verifier::allow(undeclared_external_trait)]
+pub assume_specification [<std::env::Args as Iterator>::next] (a: &mut std::env::Args) -> std::option::Option<String>;
+pub assume_specification [std::ffi::OsString::into_string] (s: std::ffi::OsString) -> std::result::Result<String, std::ffi::OsString>;
 #[verifier::external_body]
 const fn version_string() -> &'static str { "xt" }
 #[verifier::external_body]
@@ -394,6 +410,8 @@ ITEMS = [
     dict(src='repo:src/main.rs', kind='fn', name='one', within_impl=r'\bimpl\s*<I>\s+InputPaths\s*<I>', contract=dict()),
     dict(src='repo:src/main.rs', kind='fn', name='many', within_impl=r'\bimpl\s*<I>\s+InputPaths\s*<I>', contract=dict()),
     dict(raw='}'),
+    # usage_name: the program name for the help texts is obtained without a call that can panic on a non-Unicode argv[0]
+    dict(src='repo:src/main.rs', kind='fn', name='usage_name', contract=dict()),
     dict(src='repo:src/main.rs', kind='fn', name='format_is_unsafe_for_terminal', contract=dict(ret='r', spec=UNSAFE_SPEC)),
     # the format-name table of -f / -t, for EVERY string (the Kani harness format_names_table covers strings <= 3 B + the long names)
     dict(src='repo:src/main.rs', kind='fn', name='try_parse_format',
